@@ -1,6 +1,6 @@
 (* Compiled on every run of the C01 check: pins each statement and prints its assumptions. *)
 From Coq Require Import String.
-From Coq Require Import ZArith List Bool Lia Arith.
+From Coq Require Import ZArith NArith List Bool Lia Arith.
 From SV Require Import lib.Core lib.Bytecode c01.Proofs_C01 c01.Properties_C01.
 Import ListNotations.
 Open Scope list_scope.
@@ -57,17 +57,38 @@ Check (C01_dead_code_silent :
   ceval G n r c = Some (Val v) ->
   (truthy v = true -> ceval G (S n) r (EIf c t e1) = ceval G (S n) r (EIf c t e2)) /\
   (truthy v = false -> ceval G (S n) r (EIf c e1 t) = ceval G (S n) r (EIf c e2 t)) /\
-  (forall ps body, ceval G (S n) r (ELam ps body) = Some (Val (VClo ps body r)))).
+  (forall ps rest body, ceval G (S n) r (ELam ps rest body) = Some (Val (VClo ps rest body r)))).
 
 Check (C01_call_args_exact :
-  forall G n r f args ps body r' vs,
+  forall G n r f args ps rest body r' vs,
   evals (ceval G n r) args = Some (inl vs) ->
-  ceval G n r f = Some (Val (VClo ps body r')) ->
-  (length ps = length vs -> ceval G (S n) r (EApp f args) = ceval G n (bind ps vs r') body) /\
-  (length ps <> length vs -> ceval G (S n) r (EApp f args) = Some (Err EArity)) /\
-  (NoDup ps -> length ps = length vs -> forall i x v, nth_error ps i = Some x -> nth_error vs i = Some v ->
-     Core.lookup x (bind ps vs r') = Some v) /\
+  ceval G n r f = Some (Val (VClo ps rest body r')) ->
+  ceval G (S n) r (EApp f args) =
+    match call_args ps rest vs with
+    | Some (xs, ws) => ceval G n (bind xs ws r') body
+    | None => Some (Err EArity)
+    end /\
+  (rest = None -> length ps = length vs -> call_args ps rest vs = Some (ps, vs)) /\
+  (rest = None -> length ps <> length vs -> call_args ps rest vs = None) /\
+  (forall r0, rest = Some r0 -> length ps <= length vs ->
+     call_args ps rest vs = Some (ps ++ [r0], firstn (length ps) vs ++ [VList (skipn (length ps) vs)])) /\
+  (forall xs ws, call_args ps rest vs = Some (xs, ws) -> NoDup xs ->
+     forall i x v, nth_error xs i = Some x -> nth_error ws i = Some v -> Core.lookup x (bind xs ws r') = Some v) /\
   length vs = length args).
+
+Check (C01_simulation_rest :
+  forall limit tco MG ps r body r' clo vs mvs xs ws C pcC st0 fs,
+  vrel tco (VClo ps (Some r) body r') clo ->
+  call_args ps (Some r) vs = Some (xs, ws) -> Forall2 (vrel tco) vs mvs ->
+  nth_error C pcC = Some (FUNC (length mvs)) -> S (length fs) < limit ->
+  exists mws code caps fvs,
+    clo = MClo (length ps + 1) true code caps /\
+    xs = ps ++ [r] /\ ws = firstn (length ps) vs ++ [VList (skipn (length ps) vs)] /\
+    mws = firstn (length ps) mvs ++ [MList (skipn (length ps) mvs)] /\
+    vm_step limit (mkVM C pcC ((st0 ++ mvs) ++ [clo]) fs MG) =
+      SNext (mkVM code 0 (st0 ++ mws) (mkFrame (length st0) clo (S pcC) C :: fs) MG) /\
+    Forall2 (vrel tco) ws mws /\
+    R1 tco (bind xs ws r') (body_cenv xs fvs) mws caps).
 
 Print Assumptions C01_simulation_L0.
 Print Assumptions C01_simulation_tail.
@@ -76,3 +97,4 @@ Print Assumptions C01_program_render.
 Print Assumptions C01_var_latest.
 Print Assumptions C01_dead_code_silent.
 Print Assumptions C01_call_args_exact.
+Print Assumptions C01_simulation_rest.
